@@ -754,6 +754,14 @@ func TestVerif_C35(t *testing.T) {
 		}
 		c35Case(r, "lists", ci, rng, o, 1)
 	})
+	// "history": a PRNG sequence of renderings, copies and mutations on ONE Config object; the
+	// oracle is applied after every redacting call (a rendering must not depend on what was
+	// rendered before, e.g. through a cache shared between the safe and the unsafe form).
+	r.ParCases("history", r.N(700, 25000), 4, func(ci int, rng *verifkit.Rand) { c35HistoryCase(r, ci, rng) })
+	r.Require("history_redacting_calls_judged", 1500)
+	r.Require("history_redacting_calls_after_unsafe_rendering", 300)
+	r.Require("history_redacting_calls_after_mutation", 300)
+
 	// "parse": secrets reach the configuration through the real loader (Parse: variable
 	// expansion + YAML + validation), with the referenced variables unset.
 	// calibration: which secret fields does validation accept when they hold a reference?
@@ -1110,4 +1118,181 @@ func c35ParseCase(r *verifkit.R, ci int, rng *verifkit.Rand, usable []string) {
 		return c
 	}
 	c35JudgeConfig(r, "parse", ci, cfg, cores, rebuild, 1, 0)
+}
+
+// ---------------------------------------------------------------- call histories on one object
+
+// c35HistoryCase runs a PRNG sequence of operations on one configuration object:
+//
+//	String           judged: text must hide every currently configured secret
+//	Redacted         judged: returned struct, its String() and its StringUnsafe() (any rendering
+//	                 of the redacted copy is a redacted rendering)
+//	StringUnsafe     not judged (it is the documented unsafe form); only recorded
+//	copy             c2 := *c; later operations go to c or c2 (same secrets)
+//	mutate           a secret leaf gets a new token, a non-secret leaf a new value
+//
+// After every judged call the exported state of the object must be unchanged.
+func c35HistoryCase(r *verifkit.R, ci int, rng *verifkit.Rand) {
+	o := c35Opts{level: 0, secretLevel: rng.Intn(3)}
+	if rng.Chance(1, 3) {
+		o.mode, o.num, o.den = "prob", rng.Range(1, 6), 12
+	}
+	seed := rng.U64()
+	unsup := map[string]bool{}
+	cfg, cores := c35Build(verifkit.NewRand(seed), o, unsup)
+	objs := []*config.Config{cfg}
+	var hist []string
+	seenUnsafe, seenMutate := false, false
+	nextCore := 100
+
+	judge := func(op string, target *config.Config, before string, red *config.Config, texts map[string]string) {
+		r.Add("history_redacting_calls_judged", 1)
+		if seenUnsafe {
+			r.Add("history_redacting_calls_after_unsafe_rendering", 1)
+		}
+		if seenMutate {
+			r.Add("history_redacting_calls_after_mutation", 1)
+		}
+		if after := c35Dump(target); after != before {
+			r.Violation("original:mutated", "history", ci, "configuration differs after "+op+" (history "+strings.Join(hist, ",")+"):\n"+c35FirstDiff(before, after), nil)
+		}
+		var leaks []string
+		if red != nil {
+			if red == target {
+				leaks = append(leaks, "Redacted() returned its receiver")
+			}
+			sl, _ := c35StructLeaks(red, cores)
+			for _, l := range c35Trunc(sl, 4) {
+				leaks = append(leaks, "struct:"+l)
+			}
+		}
+		names := make([]string, 0, len(texts))
+		for n := range texts {
+			names = append(names, n)
+		}
+		sort.Strings(names)
+		for _, n := range names {
+			tl, _ := c35TextLeaks(texts[n], cores)
+			for _, l := range c35Trunc(tl, 4) {
+				leaks = append(leaks, n+":"+l)
+			}
+		}
+		if len(leaks) == 0 {
+			r.Add("clean_renderings", 1)
+			return
+		}
+		// does a fresh, equal object leak with this single call? then it is not the history
+		freshLeak := false
+		{
+			// a copy of the exported fields into a zero Config drops any hidden per-object state
+			fresh := c35ExportedCopy(target)
+			if sl, _ := c35StructLeaks(fresh.Redacted(), cores); len(sl) > 0 {
+				freshLeak = true
+			}
+			if tl, _ := c35TextLeaks(fresh.String(), cores); len(tl) > 0 {
+				freshLeak = true
+			}
+		}
+		key := "leak:depends-on-call-history"
+		if freshLeak {
+			key = "leak:field-not-redacted"
+		}
+		r.Violation(key, "history", ci, fmt.Sprintf("%s reveals secret token(s) after the call history [%s] on the same Config object: %v (a fresh object with the same exported fields leaks: %v)",
+			op, strings.Join(hist, ", "), leaks, freshLeak), map[string]any{"history": hist, "op": op, "secrets": len(cores)})
+	}
+
+	nops := rng.Range(3, 9)
+	for k := 0; k < nops; k++ {
+		target := objs[rng.Intn(len(objs))]
+		tname := "c"
+		if target != cfg {
+			tname = "copy"
+		}
+		switch rng.Intn(7) {
+		case 0, 1:
+			before := c35Dump(target)
+			text := target.String()
+			hist = append(hist, tname+".String")
+			judge(tname+".String()", target, before, nil, map[string]string{"String": text})
+		case 2:
+			before := c35Dump(target)
+			red := target.Redacted()
+			hist = append(hist, tname+".Redacted")
+			texts := map[string]string{}
+			if red != nil {
+				texts["Redacted().String"] = red.String()
+				texts["Redacted().StringUnsafe"] = red.StringUnsafe()
+			}
+			judge(tname+".Redacted()", target, before, red, texts)
+		case 3, 4:
+			_ = target.StringUnsafe()
+			seenUnsafe = true
+			hist = append(hist, tname+".StringUnsafe")
+			r.Add("history_unsafe_renderings", 1)
+		case 5:
+			if len(objs) < 3 {
+				c2 := &config.Config{}
+				*c2 = *target
+				objs = append(objs, c2)
+				hist = append(hist, tname+" copied")
+				r.Add("history_struct_copies", 1)
+			}
+		default:
+			// mutate every object the same way so that all share one set of current secrets
+			var secretLeaves, plainLeaves []string
+			c35Walk(reflect.ValueOf(cfg).Elem(), "", "", func(l c35Leaf) {
+				if l.V.Kind() != reflect.String {
+					return
+				}
+				if l.Secret {
+					secretLeaves = append(secretLeaves, l.Inst)
+				} else {
+					plainLeaves = append(plainLeaves, l.Inst)
+				}
+			}, unsup)
+			if len(secretLeaves) == 0 || len(plainLeaves) == 0 {
+				continue
+			}
+			si, pi := verifkit.Pick(rng, secretLeaves), verifkit.Pick(rng, plainLeaves)
+			nextCore++
+			core := fmt.Sprintf("Zq%dx%s", nextCore, rng.Token(14))
+			sv, pv := c35Hostile(rng, core, o.secretLevel), "m"+rng.Token(8)
+			done := map[*string]bool{}
+			for _, ob := range objs {
+				c35Walk(reflect.ValueOf(ob).Elem(), "", "", func(l c35Leaf) {
+					if l.V.Kind() != reflect.String {
+						return
+					}
+					if ptr := l.V.Addr().Interface().(*string); !done[ptr] {
+						if l.Inst == si {
+							l.V.SetString(sv)
+							done[ptr] = true
+						} else if l.Inst == pi {
+							l.V.SetString(pv)
+							done[ptr] = true
+						}
+					}
+				}, unsup)
+			}
+			cores[si] = core
+			seenMutate = true
+			hist = append(hist, "mutate "+c35PathOf(si))
+			r.Add("history_mutations", 1)
+		}
+	}
+	r.Eval("history\x00"+c35Dump(cfg)+strings.Join(hist, ","), len(cores) >= 1 && len(hist) >= 2)
+	r.Add("secrets_planted", len(cores))
+}
+
+// c35ExportedCopy copies the exported fields of c (sharing slices) into a zero Config: hidden
+// per-object state is not carried over.
+func c35ExportedCopy(c *config.Config) *config.Config {
+	out := &config.Config{}
+	src, dst := reflect.ValueOf(c).Elem(), reflect.ValueOf(out).Elem()
+	for i := 0; i < src.NumField(); i++ {
+		if src.Type().Field(i).IsExported() {
+			dst.Field(i).Set(src.Field(i))
+		}
+	}
+	return out
 }
